@@ -4,7 +4,19 @@ import json, os, subprocess
 V = os.path.dirname(os.path.dirname(os.path.abspath(__file__)))
 props = [json.loads(l)["id"] for l in open(os.path.join(V, "properties.jsonl"))]
 
+LIFE_NOTE = ("Trusted: TLC, the SHA-256 projections in drivers/lifeworld.py, the catalogue of synthetic meters (drivers/lifecat.py). "
+             "The abstract attributes of data objects are measured from the real objects and bound from the trace. Histories are bounded "
+             "(<= 8 calls, <= 2 slots, <= 3 processes); the quick tier replays a seeded sample of the histories TLC enumerates.")
+LIFE_TEXT = ("Lifecycle.tla (P-layer state machine of model/data objects, document store, restarts) is model-checked by TLC for the life-cycle "
+             "theorems; every maximal history of a scenario template is dumped, a seeded sample is executed on the real library "
+             "(real worker processes for restarts and schedules) and the recorded execution - one event per public call with the whole-state "
+             "projection - is validated step by step by TLC against LifecycleTrace.tla; ")
 CLAIMED = {
+ "C01": dict(engine="Lifecycle", design="6 C01", text=LIFE_TEXT + "clauses: load succeeds, re-serialises to the same document, keeps timezone / warnings / disqualifications, predicts the same bytes after reload (interp map).", note=LIFE_NOTE + " The formula clause is decided under C11/C12 (DailyCurve)."),
+ "C02": dict(engine="Lifecycle", design="6 C02", text=LIFE_TEXT + "clauses: PredictPure (whole-state projection unchanged by predict), fit/load/make leave every other object alone, frames handed out are copies, caller frames untouched, prediction of a dataset independent of earlier predictions.", note=LIFE_NOTE),
+ "C03": dict(engine="Lifecycle", design="6 C03", text=LIFE_TEXT + "plus Schedule.tla: TLC enumerates every assignment/order of a 3-meter batch on up to 3 cold worker processes x thread counts x warm kinds; sampled schedules run as real OS processes; one interp map over the whole batch demands one hash per (family, profile, seed, baseline).", note=LIFE_NOTE + " OS-level timing interleavings are not controlled."),
+ "C04": dict(engine="Lifecycle", design="6 C04", text=LIFE_TEXT + "clauses: fit returns or raises DataSufficiencyError exactly when the data carries a disqualification and the override is off; predict's outcome class follows Faults(model, data, flags); the model carries the data's and the poor-fit disqualification; the gate survives save/restart/load.", note=LIFE_NOTE + " Decided for the three gated families (daily, billing, hourly)."),
+ "C05": dict(engine="Lifecycle", design="6 C05", text=LIFE_TEXT + "clause PredSameAcrossObservedVariants: probe vectors of predictions for observed-variants {orig, x3, shuffled, 30% NaN, all NaN, absent} of the same weather must agree wherever both produce a value; a variant may not make predict raise.", note=LIFE_NOTE + " Compared at 48 probe timestamps per report plus the full-column hash per variant."),
  "C20": dict(engine="Window", design="6 C20", text="TLC enumerates every abstract window call on an integer timeline (I-layer = transform.py as written, checked against the P-layer clauses); a seeded sample of those calls (thorough: 150k x 4 shapes) is executed on the real get_baseline_data/get_reporting_data and every recorded outcome is judged by TLC against the P-layer (WindowTrace).",
              note="Trusted: TLC, the projection in drivers/window.py (index mapping, equality of values), the reading decisions listed in the evidence assumptions. Spec-level exhaustiveness is relative to MaxT/MaxLen; real sizes are reached by scaling only."),
 }
